@@ -274,6 +274,7 @@ type httpGate struct {
 	mu       sync.Mutex
 	hold     chan struct{} // non-nil: requests wait for it to be closed
 	arrivals int
+	mode     string // "" pass through | "500" | "garbage"
 }
 
 func newHTTPGate(target string) (*httpGate, error) {
@@ -294,11 +295,23 @@ func (g *httpGate) serve(w http.ResponseWriter, r *http.Request) {
 	g.arrivals++
 	h := g.hold
 	g.mu.Unlock()
+	_ = h
+	mode := g.mode
 	if h != nil {
 		select {
 		case <-h:
 		case <-time.After(4 * time.Second):
 		}
+	}
+	switch mode {
+	case "500":
+		w.WriteHeader(500)
+		w.Write([]byte(`{"message":"INTERNAL_ERROR"}`))
+		return
+	case "garbage":
+		w.WriteHeader(200)
+		w.Write([]byte("\x00\xff not json {{{"))
+		return
 	}
 	req, _ := http.NewRequest(r.Method, "http://"+g.target+r.URL.RequestURI(), r.Body)
 	for k, v := range r.Header {
